@@ -180,6 +180,29 @@ def run(chk):
                     sig['error'] = msg.split(':')[0]
                 chk.violation(sig, {'reference': r['ref'], 'actual': r['df'], 'mutation': r['mut'], 'entry': entry, 'observed': got,
                                     'expected': want, 'message': msg[:300]})
+    # 2b. the same entry points under non-default option sets (each kind of check on its own selected columns) --------
+    nopt = 0
+    for i, r in enumerate(stable if thorough else rnd.sample(stable, min(60, len(stable)))):
+        rdf, adf = fl.frame(r['ref']), fl.frame(r['df'])
+        cands = [x for x in r['res'] if x['dem'] and x['o']['cx']['mode'] == 'all'
+                 and not (x['o']['ct']['mode'] == 'all' and x['o']['cd']['mode'] == 'all' and x['o']['co']['mode'] == 'all')]
+        for x in rnd.sample(cands, min(len(cands), 8 if thorough else 4)):
+            o = x['o']
+            for entry in ('assertDataFramesEqual', 'parquet', 'ondisk'):
+                if entry == 'ondisk' and (o['tm'] != 'strict' or r['mut'] == 'addcol'):
+                    continue
+                kw = fl.kwargs_of(o, as_function=rnd.random() < 0.3)
+                got, msg = fl.run_check(refobj, entry, adf, rdf, kw, wd, tag='o%d' % i)
+                chk.coverage['replayed_cases'] += 1
+                nopt += 1
+                if got != x['spec']:
+                    clause = 'NeverAnInternalError' if got == 'error' else ('CopyPasses' if x['spec'] == 'pass' else 'CheckedChangeFails')
+                    sig = {'kind': 'frame-compare', 'clause': clause, 'mut': r['mut'], 'entry': entry, 'options': 'non-default'}
+                    if got == 'error':
+                        sig['error'] = msg.split(':')[0]
+                    chk.violation(sig, {'reference': r['ref'], 'actual': r['df'], 'mutation': r['mut'], 'entry': entry, 'options': o,
+                                        'observed': got, 'expected': x['spec'], 'message': msg[:300]})
+    chk.coverage['entry_point_option_cases'] = nopt
     # 3. code -> spec: rich frames (all recognised dtypes) with single mutations ----------------------------------
     events, detail = [], {}
     n = 3000 if thorough else 500
@@ -194,6 +217,22 @@ def run(chk):
         detail[tid] = {'kinds': kinds, 'mutation': mut, 'reference_head': json.loads(json.dumps(rdf.head(4).to_dict(orient='list'), default=str)),
                        'actual_head': json.loads(json.dumps(adf.head(4).to_dict(orient='list'), default=str)), 'message': msg[:300]}
         tid += 1
+        # the same pair against a reference FILE: a CSV file does not keep dtypes, so only 'never an internal error' is
+        # demanded of a copy; a changed / missing value, row or column must still fail
+        if rnd.random() < 0.5:
+            entry = rnd.choice(['csv', 'csv', 'parquet'])
+            try:
+                import warnings
+                with warnings.catch_warnings():
+                    warnings.simplefilter('ignore')
+                    (rdf.to_csv if entry == 'csv' else rdf.to_parquet)(os.path.join(wd, 'probe.' + entry), **({'index': False} if entry == 'csv' else {}))
+            except Exception:
+                continue        # the reference itself cannot be written in this format (environment)
+            got2, msg2 = fl.run_check(refobj, entry, adf, rdf, {}, wd, tag='rich')
+            exp2 = 'fail' if (expect == 'fail' and mut in ('cell', 'droprow', 'addrow', 'dropcol', 'name')) else 'noerror'
+            events.append({'tid': tid, 'ev': 'Compare', 'outcome': got2, 'expect': exp2, 'hasmessage': bool(msg2.strip()), 'mut': mut})
+            detail[tid] = dict(detail[tid - 1], entry=entry, message=msg2[:300])
+            tid += 1
     # 4. histories on one comparison object: explicit and default precisions interleaved ------------------------------
     nsess = 300 if thorough else 60
     for s_ in range(nsess):
